@@ -248,4 +248,28 @@ func init() {
 		Variant{Name: "missing address dials the first session", Property: "C11", File: mcc,
 			Old: "\t\treturn nil, fmt.Errorf(\"connection key %s didn't match a connection\", addr)", New: "\t\tmcc.connMapLock.RLock()\n\t\tdefer mcc.connMapLock.RUnlock()\n\t\tfor _, fn := range mcc.connMap {\n\t\t\treturn fn()\n\t\t}\n\t\treturn nil, nil", Expect: "O11.3"},
 	)
+	// ---- C08
+	shm := "proxy/shard_manager.go"
+	pst := "proxy/proxy_streams.go"
+	ipr := "proxy/intra_proxy_router.go"
+	addVariants(
+		Variant{Name: "RemoveRemoteSendChan made unconditional", Property: "C08", File: shm,
+			Old: "\tif currentChan, exists := sm.remoteSendChannels[shardID]; exists && currentChan == expectedChan {\n\t\tdelete(sm.remoteSendChannels, shardID)", New: "\tif _, exists := sm.remoteSendChannels[shardID]; exists {\n\t\tdelete(sm.remoteSendChannels, shardID)", Expect: "O8.1", Contains: "RemoveRemoteSendChan"},
+		Variant{Name: "ack channel compared outside the critical section", Property: "C08", File: shm,
+			Old: "\tsm.localAckChannelsMu.Lock()\n\tdefer sm.localAckChannelsMu.Unlock()\n\tif currentChan, exists := sm.localAckChannels[shardID]; exists && currentChan == expectedChan {\n\t\tdelete(sm.localAckChannels, shardID)\n\t} else {", New: "\tsm.localAckChannelsMu.RLock()\n\tcurrentChan, exists := sm.localAckChannels[shardID]\n\tsm.localAckChannelsMu.RUnlock()\n\tif exists && currentChan == expectedChan {\n\t\tsm.localAckChannelsMu.Lock()\n\t\tdelete(sm.localAckChannels, shardID)\n\t\tsm.localAckChannelsMu.Unlock()\n\t} else {", Expect: "O8.1", Contains: "RemoveLocalAckChan"},
+		Variant{Name: "recover removed from DeliverMessagesToShardOwner", Property: "C08", File: shm,
+			Old: "\t\t\tdefer func() {\n\t\t\t\tif panicErr := recover(); panicErr != nil {\n\t\t\t\t\tlogger.Warn(\"Failed to deliver messages to local shard owner (channel closed)\")\n\t\t\t\t}\n\t\t\t}()\n", New: "", Expect: "O8.2"},
+		Variant{Name: "receiver registers before terminating its predecessor", Property: "C08", File: pst,
+			Old: "\t// Terminate any previous local receiver for this shard\n\tif r.shardManager != nil {\n\t\tr.shardManager.TerminatePreviousLocalReceiver(r.sourceShardID, r.logger)\n\t}\n", New: "", Expect: "O8.3"},
+		Variant{Name: "shard ownership announced before the channel is registered", Property: "C08", File: pst,
+			Old: "\ts.shardManager.SetRemoteSendChan(s.targetShardID, s.sendMsgChan)\n\tdefer s.shardManager.RemoveRemoteSendChan(s.targetShardID, s.sendMsgChan)\n\n\tregisteredAt := s.shardManager.RegisterShard(s.targetShardID)\n\tdefer s.shardManager.UnregisterShard(s.targetShardID, registeredAt)\n", New: "\tregisteredAt := s.shardManager.RegisterShard(s.targetShardID)\n\tdefer s.shardManager.UnregisterShard(s.targetShardID, registeredAt)\n\n\ts.shardManager.SetRemoteSendChan(s.targetShardID, s.sendMsgChan)\n\tdefer s.shardManager.RemoveRemoteSendChan(s.targetShardID, s.sendMsgChan)\n", Expect: "O8.3"},
+		Variant{Name: "sender registration not cleaned up", Property: "C08", File: ipr,
+			Old: "\tdefer s.shardManager.GetIntraProxyManager().UnregisterSender(s.peerNodeName, s.targetShardID, s.sourceShardID, s)\n", New: "", Expect: "O8.4"},
+		Variant{Name: "UnregisterActiveReceiver unconditional again", Property: "C08", File: shm,
+			Old: "\tif current, exists := sm.activeReceivers[sourceShardID]; exists && current == receiver {\n\t\tdelete(sm.activeReceivers, sourceShardID)\n\t}", New: "\tdelete(sm.activeReceivers, sourceShardID)", Expect: "O8.1", Contains: "UnregisterActiveReceiver"},
+		Variant{Name: "redundant unguarded shard delete after unlock", Property: "C08", File: shm,
+			Old: "\t\tsm.mutex.Unlock()\n\n\t\tsm.broadcastShardChange(\"unregister\", clientShardID)", New: "\t\tsm.mutex.Unlock()\n\n\t\tsm.mutex.Lock()\n\t\tdelete(sm.localShards, key)\n\t\tsm.mutex.Unlock()\n\t\tsm.broadcastShardChange(\"unregister\", clientShardID)", Expect: "O8.1", Contains: "UnregisterShard"},
+		Variant{Name: "watermark replay without recover", Property: "C08", File: pst,
+			Old: "\t\t// The owner closes this channel before it is unregistered: guard the send with recover\n\t\tfunc() {\n\t\t\tdefer func() {\n\t\t\t\tif panicErr := recover(); panicErr != nil {\n\t\t\t\t\tr.logger.Warn(\"Failed to send pending watermark to local shard (channel closed)\",\n\t\t\t\t\t\ttag.NewStringTag(\"targetShard\", ClusterShardIDtoString(targetShardID)))\n\t\t\t\t}\n\t\t\t}()\n", New: "\t\tfunc() {\n", Expect: "O8.2"},
+	)
 }
